@@ -234,7 +234,7 @@ def alphabet(cfg):
     al = ["e%d" % (i + 1) for i in range(cfg.get("nsrc", 1))] + ["s"]
     if any(m != "sync" for m in cfg.get("cons", ["future"])):
         al += ["d"]
-        if k in ("map_async", "rate_limit", "zip", "union", "direct") or len(cfg.get("cons", [])) > 1:
+        if k in ("map_async", "rate_limit", "zip", "union", "direct", "partition") or len(cfg.get("cons", [])) > 1:
             al += ["D"]
     if k in ("delay", "rate_limit", "timed_window", "timed_window_unique") or (k == "partition" and cfg.get("timeout")):
         al += ["a", "w"]
